@@ -20,7 +20,9 @@ def cells_vs_quadrature(inp):
     objs = [oqupy.PowerLawSD(alpha=0.3, zeta=1.0, cutoff=2.0, cutoff_type='exponential', temperature=0.0),
             oqupy.PowerLawSD(alpha=0.2, zeta=3.0, cutoff=1.5, cutoff_type='gaussian', temperature=0.7),
             # hard cutoff with a temperature far below the cutoff frequency (cutoff / T = 80)
-            oqupy.PowerLawSD(alpha=0.25, zeta=1.0, cutoff=4.0, cutoff_type='hard', temperature=0.05)]
+            oqupy.PowerLawSD(alpha=0.25, zeta=1.0, cutoff=4.0, cutoff_type='hard', temperature=0.05),
+            # a bath given by its autocorrelation function (two damped modes; C(-t) = conj C(t), Im C != 0)
+            oqupy.CustomCorrelations(lambda t: 0.4 * np.exp(-0.3 * abs(t) - 1.1j * t) + 0.15 * np.exp(-0.8 * abs(t) - 2.3j * t))]
     if 'time_1 != 0' in which:
         cases = [('upper-triangle', 0.1, 0.3, None)]
     else:
@@ -48,7 +50,7 @@ def cells_vs_quadrature(inp):
             want = _direct(c, shape, d, t1, t2)
             checked += 1
             if abs(got - want) > 1e-6 * max(1.0, abs(want)):
-                bad.append({'shape': shape, 'delta': d, 'time_1': t1, 'time_2': t2, 'temperature': c.temperature,
+                bad.append({'shape': shape, 'delta': d, 'time_1': t1, 'time_2': t2, 'temperature': getattr(c, 'temperature', None),
                             'observed': str(complex(got)), 'required (direct integration of its own C)': str(complex(want))})
     return {'violates': bool(bad), 'checked': checked, 'detail': bad[:3]}
 
